@@ -383,6 +383,25 @@ def job_op(op, Ka, Kb, ua, ub, history=False):
             O.cover("op:ValueError")
             O.prove("op:ValueError-only-with-a-sign-constrained-kind", bool(constrained) and expected != "TypeError",
                     props=("C06", "C19"), note=repr(e))
+            # a ValueError is legitimate only if the exact result would violate the sign constraint of the result's kind
+            # (or, for the two sub-kind differences, of the left operand's kind in which the base class builds it first)
+            if expected not in ("TypeError", spec.NUM) and expected in spec.SIGN and not (op == "div" and False):
+                if op == "div":
+                    exact_res = L.div(X, Y) if not (not L._symbolic(Y) and float(Y) == 0) else None
+                else:
+                    exact_res = exact(X, Y)
+                if exact_res is not None:
+                    viol = AU.sign_violated(expected, exact_res)
+                    if Ka in spec.SIGN and Ka != expected and op in ("add", "sub"):
+                        viol = L.Or(viol, AU.sign_violated(Ka, exact_res))
+                    if op in ("mul", "div"):
+                        # the library refuses a NEGATIVE numeric factor/divisor of a sign-constrained quantity outright (the
+                        # result could only be valid for a zero magnitude); a zero or positive one must not be refused
+                        for K_, V_ in ((Ka, X), (Kb, Y)):
+                            if K_ in NUMS:
+                                viol = L.Or(viol, L.lt(V_, 0))
+                    O.prove("op:ValueError-only-when-the-exact-result-violates-the-sign-constraint(or a negative numeric factor)", viol,
+                            props=("C06", "C19"), note=repr(e))
             # progress: strictly positive operands (and a strictly positive difference) are never rejected
             pos = L.And(L.gt(X, 0), L.gt(Y, 0), L.gt(L.sub(X, Y), 0) if op == "sub" else True)
             O.prove("op:positive-operands-and-result=>no-ValueError", L.Not(pos), props=("C06",), note=repr(e))
